@@ -680,6 +680,8 @@ type SpecEnv struct {
 	Funcs map[string]*PreludeFn
 	Bound map[string]string // quantifier-bound var -> sort
 	CompSorts map[string]string
+	Epoch     map[string]bool // epoch-stable spec functions (evaluated on the base snapshot when their arguments predate it)
+	EntryAlloc Term
 }
 
 func (e *SpecEnv) withState(s State) *SpecEnv {
@@ -1052,10 +1054,23 @@ func (e *SpecEnv) call(n *node) (specVal, error) {
 		return specVal{}, fmt.Errorf("unknown function %q", n.Text)
 	}
 	var args []string
+	var baseArgs []string
+	var conds []Term
+	useBase := false
+	balloc := e.EntryAlloc
+	if t, ok := e.Cur[kBalloc]; ok {
+		balloc = t
+	}
 	ki := 0
 	for _, p := range f.Params {
 		if comp, isHeap := e.Cur[p[0]]; isHeap {
 			args = append(args, comp.S)
+			if b, ok := e.Cur["@b:"+p[0]]; ok && e.Epoch[f.Name] {
+				baseArgs = append(baseArgs, b.S)
+				useBase = true
+			} else {
+				baseArgs = append(baseArgs, comp.S)
+			}
 			continue
 		}
 		if _, isComp := e.CompSorts[p[0]]; isComp {
@@ -1079,11 +1094,25 @@ func (e *SpecEnv) call(n *node) (specVal, error) {
 			return specVal{}, fmt.Errorf("argument %d of %s: want %s got %s (%s)", ki, f.Name, p[1], a.T.Sort, a.T.S)
 		}
 		args = append(args, a.T.S)
+		baseArgs = append(baseArgs, a.T.S)
+		if balloc.S != "" {
+			switch a.T.Sort {
+			case SSlice:
+				conds = append(conds, T(SBool, app("okslice", a.T.S, balloc.S)))
+			case SVal:
+				conds = append(conds, T(SBool, app("okval", a.T.S, balloc.S)))
+			case SInt:
+				conds = append(conds, T(SBool, app("<", a.T.S, balloc.S)))
+			}
+		}
 	}
 	if ki != len(n.Kids) {
 		return specVal{}, fmt.Errorf("too many arguments to %s", f.Name)
 	}
 	r := specVal{T: T(f.Ret, app(f.Name, args...))}
+	if useBase && balloc.S != "" {
+		r.T = Ite(And(conds...), T(f.Ret, app(f.Name, baseArgs...)), r.T)
+	}
 	if f.Ret == SSlice {
 		// convention: slices returned by prelude functions hold Val elements
 		r.Elem = SVal
